@@ -150,6 +150,19 @@ def extrudeLineTris (n : Nat) : List Nat :=
     [front, back, back + 1,  front, back + 1, front + 1,
      front, front + 2, back,  front + 2, back + 2, back]
 
+/-! ### extrude.ScrewNodeData.Process (extrude/screw.go:24-112): `segments` copies of a line of `lineLen` points -/
+
+def screwVerts (lineLen segments : Nat) : Nat := lineLen * segments
+
+def screwTris (lineLen segments : Nat) : List Nat :=
+  (List.range (segments - 1)).flatMap fun s =>          -- Go's seg = s + 1
+    (List.range (lineLen - 1)).flatMap fun j =>         -- Go's l = j + 1
+      let bottomLeft := j + s * lineLen
+      let bottomRight := (j + 1) + s * lineLen
+      let topLeft := j + (s + 1) * lineLen
+      let topRight := (j + 1) + (s + 1) * lineLen
+      [bottomRight, bottomLeft, topLeft, topRight, bottomRight, topLeft]
+
 /-! ### extrude.polygon (extrude/circle.go:50-194; `Polygon`, `Circle.Extrude`, `CircleAlongSpline.Extrude`):
 `pathLen` rings of `sides + 1` vertices. The winding of each quad is decided by a floating point
 test (`dir.Dot(...) < 0`), so it is a parameter here: one flag per quad, in emission order. -/
